@@ -242,6 +242,11 @@ def check(case, ctx):
         if np.any(diff[m] > tol[m]):
             i = tuple(int(v) for v in np.argwhere((diff > tol) & m)[0])
             raise Violation("zscore:not-equivariant", f"{ctxt}: element {list(i)}: z(x)={np.asarray(zx.data)[i]!r} z(a*x+b)={np.asarray(zy.data)[i]!r}")
+    # ---- results belong to the caller: computing z of other data of the same shape must not change z(x)
+    zsnap = np.array(zx.data, copy=True)
+    z_of(y[::-1].copy() if y.ndim == 1 else y[::-1, ::-1].copy(), axis)
+    if not np.array_equal(np.asarray(zx.data), zsnap, equal_nan=True):
+        raise Violation("zscore:earlier-result-changed-by-later-call", ctxt)
     # ---- memory layout is not part of the value: the same numbers in another layout give the same answer
     lay = case.get("layout", "C")
     if lay != "C":
